@@ -33,6 +33,13 @@ def install_clock():
     for m in (J, SUB, H):
         m.datetime = LogicalDatetime
     R.strftime = lambda fmt: "20300101-000000"
+
+    class _Time:            # result.load_result polls with time.sleep while a result file is incomplete
+        @staticmethod
+        def sleep(t):
+            _TICK[0] += 1
+
+    R.time = _Time
     # version check would spawn network/etelemetry look-ups
     J.Job._etelemetry_version_data = {}
 
